@@ -42,6 +42,13 @@ Definition b64_ge (x y : binary64) : bool :=
 Definition b64_le (x y : binary64) : bool :=
   match b64_compare x y with Some Lt | Some Eq => true | _ => false end.
 
+Definition b64_lt (x y : binary64) : bool :=
+  match b64_compare x y with Some Lt => true | _ => false end.
+Definition b64_gt (x y : binary64) : bool :=
+  match b64_compare x y with Some Gt => true | _ => false end.
+Definition b64_eq (x y : binary64) : bool :=
+  match b64_compare x y with Some Eq => true | _ => false end.
+
 (* int32(x) *)
 Definition int32_of_b64 (x : binary64) : Z :=
   if is_finite 53 1024 x then
@@ -53,6 +60,10 @@ Definition int32_of_b64 (x : binary64) : Z :=
 Definition pow_2_31 : binary64 := b64_of_Z (2 ^ 31).
 Definition semi_to_deg : binary64 := b64_div mode_NE (b64_of_Z 180) pow_2_31.
 Definition deg_to_semi : binary64 := b64_div mode_NE pow_2_31 (b64_of_Z 180).
+
+(* math.Pow(a, b) on small non-negative integer constants whose power is below 2^53 (exactly representable;
+   math.Pow is exact there -- modelled, not verified); vocabulary of the translated source, Gen/C17Funcs.v *)
+Definition go_pow_small (a b : Z) : binary64 := b64_of_Z (a ^ b).
 
 (* ---- Latitude ---- *)
 
@@ -163,6 +174,12 @@ Definition format_f5_32 (x : binary64) : string :=
       | _ => "NaN"
       end
   end%string.
+
+(* strconv.FormatFloat(x, fmt, prec, bitSize) as the translated source calls it; only the form the library uses
+   ('f' = 102, the package precision, 32 bits) has a model, any other call is mapped to a string no coordinate prints as,
+   so that a changed format argument can never be proved equal to the model *)
+Definition go_format_float (x : binary64) (fmt prec bits : Z) : string :=
+  if (fmt =? 102) && (prec =? precision) && (bits =? 32) then format_f5_32 x else "<unmodelled FormatFloat>"%string.
 
 (* const stringInvalid = "Invalid" *)
 Definition string_invalid : string := "Invalid"%string.
